@@ -236,7 +236,7 @@ def reads(i):
 def c02_step(rng, i):
     """one randomly decorated task: module x vars x when x loop x register x ignore_errors"""
     looped = rng.random() < 0.35
-    m = rng.randrange(7)
+    m = rng.randrange(8)
     tag = "<<s%d>> " % i
     if m == 0:
         mod = ('debug', lit(tag + "a=") + [('v', ['a'])] + (lit(" it=") + [('v', ['item'])] if looped else []))
@@ -250,6 +250,11 @@ def c02_step(rng, i):
         mod = ('command', 'k%df' % i, '', 1)
     elif m == 5:
         mod = ('assert', [('eq', ('var', ['a']), ('str', rng.choice(['va', 'nope', 'T%d' % i])))])
+    elif m == 7:
+        # a looped set_vars whose task var `z` reads what the PREVIOUS iteration wrote: task vars are rendered
+        # afresh for every item, against the store as it is then
+        looped = True
+        mod = ('setvars', [('a', lit('s%d' % i) + [('v', ['item'])]), ('b', [('v', ['z'])])])
     else:
         mod = ('debugvar', ['a'])
     t = task(mod)
@@ -264,6 +269,11 @@ def c02_step(rng, i):
         t["vars"] = [('z', lit('Z%d' % i) + ([('v', ['item'])] if looped else []))]
     elif r < 0.55:
         t["vars"] = [('a', lit('T%d' % i)), ('z', [('v', ['a'])] + lit('q'))]
+    if m == 7:
+        t["vars"] = [('z', [('v', ['a'])] + lit('q'))]
+    if m == 0 and t["vars"] and t["vars"][-1][0] == 'z':
+        # the task's own var is printed: per item when looped
+        t["mod"] = ('debug', mod[1] + lit(" z=") + [('v', ['z'])])
     if looped:
         t["loop"] = rng.choice([[lit('p'), lit('q')], [lit('x'), [('v', ['a'])], lit('y')], [lit('only')]])
     r = rng.random()
@@ -342,6 +352,86 @@ def c02(run, replay=None):
                dict(env_cases=len(envcases) + len(envp)))
 
 
+
+# ---------------------------------------------------------------- C11: which entries are valid (Valid.v)
+V_MODULES = {"assert": "\n    that: [\"true\"]", "command": " \"true\"", "copy": "\n    content: x\n    dest: ROOT/out/vf", "debug": "\n    msg: vdbg",
+             "file": "\n    path: ROOT/out/vd\n    state: directory", "find": "\n    paths: ROOT/out", "include": " ROOT/vinc.rh", "pacman": "\n    name: x",
+             "set_vars": "\n    vk: vv", "template": "\n    src: ROOT/vinc.rh\n    dest: ROOT/out/vt"}
+V_KEYWORDS = {"become": "false", "become_user: ": None, "changed_when": "false", "check_mode": "false", "ignore_errors": "false", "name": "vn", "loop": "[1]",
+              "register": "vr", "vars": "{vx: 1}", "when": "false"}
+V_KEYWORDS = {k.rstrip(": "): (v if v is not None else "root") for k, v in V_KEYWORDS.items()}
+V_OTHER = ["ignore-errors", "changed-when", "check-mode", "become-user", "When", "WHEN", "Debug", "COMMAND", "loops", "var", "registers", "ignoreerrors", "with_items", "tags", "notify",
+           "module", "params", "global_params", "set-vars", "setvars", "shell", "when ", " when", "rash", "item", "", "debug ", "command.", "include_tasks", "block", "become_method"]
+V_NONSTR = ["7", "true", "~", "1.5", "[a, b]"]
+
+
+def valid_entry(rng, clean=False):
+    """(yaml text of one entry, s-expression of its key set); clean: one module plus keywords only"""
+    r = rng.random()
+    if r < 0.08 and not clean:
+        return rng.choice(["- just a string\n", "- 7\n", "- ~\n", "- [debug, x]\n", "- true\n"]), "notmap"
+    keys = []
+    nm = 1 if clean else rng.choice([0, 1, 1, 1, 1, 1, 2])
+    keys += [("m", k) for k in rng.sample(sorted(V_MODULES), nm)]
+    keys += [("k", k) for k in rng.sample(sorted(V_KEYWORDS), rng.randint(0, 4))]
+    if rng.random() < 0.35 and not clean:
+        keys += [("o", k) for k in rng.sample(V_OTHER, rng.choice([1, 1, 2]))]
+    if rng.random() < 0.08 and not clean:
+        keys.append(("n", rng.choice(V_NONSTR)))
+    rng.shuffle(keys)
+    if not keys:
+        return "- {}\n", ["keys"]
+    # never let a generated task do anything: a task that is built is skipped (`when: false`) - the question is only
+    # whether the FILE is accepted
+    if not any(k == "when" for _, k in keys):
+        keys.append(("k", "when"))
+    L = []
+    for kind, k in keys:
+        if kind == "m":
+            L.append("%s:%s" % (k, V_MODULES[k]))
+        elif kind == "k":
+            L.append("%s: %s" % (k, V_KEYWORDS[k]))
+        elif kind == "o":
+            L.append("%s: x" % json.dumps(k))
+        else:
+            L.append("? %s\n: x" % k if k.startswith("[") else "%s: x" % k)
+    text = "- " + "\n".join(L).replace("\n", "\n  ") + "\n"
+    return text, ["keys"] + [(["s", hx(k)] if kind != "n" else "other") for kind, k in keys]
+
+
+def c11_validity(run):
+    """files of 1-3 generated entries after a marker task: the mirror of validate_attrs / get_module_name (Valid.v) says
+    whether the file is accepted; rash must run the marker (and exit 0) exactly then, and run NOTHING otherwise"""
+    rng = run.rng
+    n = 150 if run.tier == "quick" else 3000
+    files, sxs = [], []
+    for i in range(n):
+        # half of the files are valid by construction apart from at most one freely generated entry
+        k = rng.randint(1, 3)
+        if rng.random() < 0.5:
+            odd = rng.randrange(k + 1)
+            ents = [valid_entry(rng, clean=(x != odd)) for x in range(k)]
+        else:
+            ents = [valid_entry(rng) for _ in range(k)]
+        text = "#!/usr/bin/env rash\n- command: \"echo vmark >> ROOT/log\"\n" + "".join(t for t, _ in ents)
+        files.append(text)
+        sxs.append(sx(["validfile", ["keys", ["s", hx("command")]]] + [e for _, e in ents]))
+    mouts = C.run_oracle(sxs)
+    cases = [dict(files={"main.rh": dict(raw=t), "vinc.rh": dict(raw="#!/usr/bin/env rash\n- debug:\n    msg: vinc\n")}, desc=dict(validity=i)) for i, t in enumerate(files)]
+    outs = E.run_impls(cases)
+    dist = dict(valid=0, invalid=0)
+    for t, mo, o in zip(files, mouts, outs):
+        r = parse_sx(mo)
+        fv = r[-1] == "t"
+        dist["valid" if fv else "invalid"] += 1
+        ran = bool(o["log"])
+        if fv and (o["rc"] != 0 or not ran):
+            run.violation("validity: Valid.v accepts every entry of this file but rash exits %r / marker ran=%s: %s" % (o["rc"], ran, o["stderr"][-200:]),
+                          dict(script=t, model=mo, implementation=o))
+        if not fv and (o["rc"] == 0 or ran or o["out"]):
+            run.violation("validity: Valid.v rejects an entry of this file (%s) but rash exits %r / marker ran=%s" % (mo, o["rc"], ran), dict(script=t, model=mo, implementation=o))
+    return n, dist
+
 # ---------------------------------------------------------------- C11
 USAGE_DOC = "#\n# Usage: prog go <x>\n#        prog help\n#        prog [--help]\n#\n# Options:\n#   --help  show help\n#\n"
 
@@ -417,10 +507,14 @@ def c11(run, replay=None):
             run.violation("help request %r: tasks ran=%s exit=%s stdout=%r" % (argv, ran, o["rc"], o["stdout"][:200]), dict(desc=c["desc"], implementation=o))
         if expect == "run" and (not ran or o["rc"] != 0):
             run.violation("harness: valid arguments %r did not run the script: %r" % (argv, o), dict(desc=c["desc"], implementation=o), no_input=True)
+    nval, vdist = c11_validity(run)
+    j["cases"] += nval
     finish_cov(run, j,
-               "scripts of 0-%d valid marker tasks with one invalid task (unknown key, no module, two modules, non-mapping) at every position, non-sequence and syntactically broken files, "
-               "and a documented script called with rejected arguments / help requests / valid arguments; non-trivial = distinct programs with at least one valid task before the invalid one" % nv,
-               dict(docopt_cases=nd, raw_cases=len(rawcases)))
+               "scripts of 0-%d valid marker tasks with one invalid task (unknown key, no module, two modules, non-mapping, near-miss keyword spellings) at every position, non-sequence and syntactically broken files, "
+               "a documented script called with rejected arguments / help requests / valid arguments, and files of generated entries (random sets of module names, keywords, near misses, internal field names, "
+               "non-string keys; non-mappings) whose acceptance is predicted by the extracted mirror of validate_attrs / get_module_name (Valid.v); "
+               "non-trivial = distinct programs with at least one valid task before the invalid one" % nv,
+               dict(docopt_cases=nd, raw_cases=len(rawcases), generated_files_by_model_verdict=vdist))
 
 
 # ---------------------------------------------------------------- C17
